@@ -54,6 +54,12 @@ type Case struct {
 	// objects) instead of a new one built from Init.
 	ReuseLive *facts.State
 	ReuseDC   ast.IDataContext
+
+	// PriorInit, when set, makes every new instance of this case perform one earlier Execute (on these
+	// facts, with PriorMaxCycle, not validated) before the validated call: the properties hold for every
+	// execution, also one on an instance that was used before and whose earlier run ended abnormally.
+	PriorInit     *facts.State
+	PriorMaxCycle uint64
 }
 
 // Violation is a broken clause.
@@ -96,6 +102,7 @@ type Report struct {
 	FaultPost          *facts.State
 	FaultCycle         uint64
 	NotesAB            int // disagreements between reference truth (A) and fresh-engine truth (B)
+	PriorErr           error // result of the earlier call on the same instance (Case.PriorInit)
 }
 
 func (r *Report) add(prop, f string, a ...interface{}) {
@@ -204,6 +211,18 @@ func RunOn(c *Case, p *Prepared, kb *ast.KnowledgeBase) *Report {
 			rep.Harness = "instance: " + err.Error()
 			return rep
 		}
+		if c.PriorInit != nil {
+			pl := c.PriorInit.Copy()
+			for _, f := range pl.Go {
+				if f != nil {
+					f.SetProbe(&facts.Probe{})
+				}
+			}
+			if pdc, perr := obs.NewDataContext(pl); perr == nil {
+				pres := obs.Execute(kb, pdc, obs.RunOpts{MaxCycle: c.PriorMaxCycle})
+				rep.PriorErr = pres.Err
+			}
+		}
 	}
 	var live *facts.State
 	var dc ast.IDataContext
@@ -240,6 +259,7 @@ func RunOn(c *Case, p *Prepared, kb *ast.KnowledgeBase) *Report {
 	main := recs[0]
 	probe.OnCall = func(name string, id int64, n int) { main.Probe(name, id, n) }
 	nonProbe := 0
+	evaluatedNow := map[string]bool{}
 	main.Hook = func(ev *obs.Event) {
 		if ev.Kind != obs.EvProbe && c.OnEvent != nil {
 			defer func() {
@@ -249,6 +269,7 @@ func RunOn(c *Case, p *Prepared, kb *ast.KnowledgeBase) *Report {
 		}
 		switch ev.Kind {
 		case obs.EvBegin:
+			evaluatedNow = map[string]bool{}
 			ev.State = obs.Capture(live, dc)
 			if c.TruthAll {
 				ev.TruthAll = map[string]bool{}
@@ -258,6 +279,7 @@ func RunOn(c *Case, p *Prepared, kb *ast.KnowledgeBase) *Report {
 				}
 			}
 		case obs.EvEval:
+			evaluatedNow[ev.Rule] = true
 			tr, terr := p.Solo.Truth(ev.Rule, live, dc)
 			ev.Truth, ev.TruthErr, ev.HasTruth = tr, terr, true
 			if c.RefFailures && terr == nil {
@@ -272,6 +294,17 @@ func RunOn(c *Case, p *Prepared, kb *ast.KnowledgeBase) *Report {
 			ev.State = obs.Capture(live, dc)
 			tr, terr := p.Solo.Truth(ev.Rule, live, dc)
 			ev.Truth, ev.TruthErr, ev.HasTruth = tr, terr, true
+			// rules the engine did not evaluate in this cycle: their fresh truth at the moment of the
+			// firing (the facts have not changed since the evaluation phase)
+			for _, r := range c.Rules {
+				if !evaluatedNow[r.Name] {
+					if ev.TruthAll == nil {
+						ev.TruthAll = map[string]bool{}
+					}
+					tr, terr := p.Solo.Truth(r.Name, live, dc)
+					ev.TruthAll[r.Name] = tr && terr == nil
+				}
+			}
 		}
 	}
 	opts := obs.RunOpts{MaxCycle: c.MaxCycle, ErrOnFail: c.ErrOnFail, Listeners: listeners}
@@ -571,6 +604,12 @@ func validate(c *Case, p *Prepared, rep *Report) {
 			}
 			if p.ByName[n].SalienceValue() > rule.SalienceValue() {
 				rep.add("C03", "cycle %d: rule %s (salience %d) fired although %s (salience %d) is satisfied", cy.n, ex.Rule, rule.SalienceValue(), n, p.ByName[n].SalienceValue())
+			}
+		}
+		// an active rule the engine did not even evaluate in this cycle competes all the same
+		for n, tr := range ex.TruthAll {
+			if tr && !retracted[n] && allNames[n] && p.ByName[n].SalienceValue() > rule.SalienceValue() {
+				rep.add("C03", "cycle %d: rule %s (salience %d) fired although the active rule %s (salience %d), which was not evaluated in this cycle, is satisfied", cy.n, ex.Rule, rule.SalienceValue(), n, p.ByName[n].SalienceValue())
 			}
 		}
 		if uint64(rep.Firings) > c.MaxCycle {
